@@ -90,7 +90,7 @@ func (s *Sim) SendTx(acc *Account, tag string, msgs ...sdk.Msg) *TxSpec {
 			// half of the time: the exact cut instead (gascut.go) - the limit falls <delta> gas units
 			// short of what the messages need on the state they meet; log-uniform delta, so the very
 			// last charges of a handler are hit as often as its middle
-			if r.IntN(2) == 0 {
+			if cut := r.IntN(2) == 0; cut && !s.Cfg.ProdBoot {
 				t.Gas = defaultGas
 				delta := int64(math.Exp(r.Float64() * math.Log(1e6)))
 				t.Memo = gasCutMemo(delta)
